@@ -260,7 +260,7 @@ def special_mutants(seed):
     if len(m.graph.node) >= 2 and len(m.graph.node[0].input) and len(m.graph.node[1].output):
         m.graph.node[0].input[0] = m.graph.node[1].output[0]  # two-node cycle
         out.append(("two_node_cycle", m))
-    for mk in (_tensor_two_payloads, _tensor_wrong_field, _tensor_dims_mismatch, _external_absurd, _graph_attr_self_copy, _missing_types, _duplicate_names_everywhere, _subgraph_io_names_outer, _function_body_shadowing):
+    for mk in (_tensor_two_payloads, _tensor_wrong_field, _tensor_dims_mismatch, _external_absurd, _graph_attr_self_copy, _missing_types, _duplicate_names_everywhere, _subgraph_io_names_outer, _function_body_shadowing, _names_collide_with_external):
         try:
             for label, mm in mk(seed):
                 out.append((label, mm))
@@ -434,6 +434,33 @@ def _function_body_shadowing(seed):
                                     vi.name = nm
                             k += 1
                             yield f"function_subgraph_value_shadows_function_value_{k}", m
+
+
+def _names_collide_with_external(seed):
+    """Every node output / graph input / graph output of a graph, in turn, takes the name of an external-data
+    initializer of that graph (error paths that describe the clashing value must not read it)."""
+    k = 0
+    for gi, g in enumerate(_all_graphs(seed.graph)):
+        ext = [t.name for t in g.initializer if t.data_location == onnx.TensorProto.EXTERNAL]
+        for nm in ext:
+            for ni, n in enumerate(g.node):
+                for oi in range(len(n.output)):
+                    m = gp._copy(seed)
+                    list(_all_graphs(m.graph))[gi].node[ni].output[oi] = nm
+                    k += 1
+                    yield f"node_output_named_like_external_initializer_{k}", m
+            for field in ("input", "output"):
+                for ii in range(len(getattr(g, field))):
+                    m = gp._copy(seed)
+                    getattr(list(_all_graphs(m.graph))[gi], field)[ii].name = nm
+                    k += 1
+                    yield f"graph_{field}_named_like_external_initializer_{k}", m
+            m = gp._copy(seed)
+            g2 = list(_all_graphs(m.graph))[gi]
+            dup = g2.initializer.add()
+            dup.CopyFrom([t for t in g2.initializer if t.name == nm][0])
+            k += 1
+            yield f"external_initializer_declared_twice_{k}", m
 
 
 def _duplicate_names_everywhere(seed):
